@@ -26,7 +26,8 @@ type mgmtInfo struct {
 
 func mgmtShape(a []B, members int) mgmtInfo {
 	if len(a) == 0 {
-		return mgmtInfo{}
+		// the empty command (`*0`): well-formed RESP, no command name
+		return mgmtInfo{is: true, class: "empty-command"}
 	}
 	name := strings.ToLower(string(a[0]))
 	switch name {
@@ -103,6 +104,7 @@ func genMgmt(r *core.Rand, nodes int, allowPhantom bool) []B {
 	url := func(id int) string { return nodeURL(id) }
 	ex := 1 + r.Intn(nodes)
 	shapes := [][]B{
+		{}, // `*0`: an array without elements
 		bs(rc),
 		bs(rc, "add"),
 		bs(rc, "delete"),
